@@ -31,6 +31,7 @@ class ObRecord:
         self.solver_out = ''
         self.smt2 = None
         self.carved = False       # excluded on this path by the carve-out of an open known finding
+        self.alt = None           # (group, case) for clauses that another mechanism may provide instead
 
 
 class TargetReport:
@@ -352,6 +353,8 @@ def _account_path(target, rep, res, carve, tier, cross_check):
             g = z3.Implies(_z(cv), g)
         ob = ObRecord(target.oid(kind, label), kind, label, pid, ctx.choices)
         ob.carved = carved
+        if label in getattr(target, 'alternatives', {}):
+            ob.alt = (target.alternatives[label], repr(target.alt_case(ctx, res.state)))
         pc = ctx.pc[:npc]
         status = None
         if npc == full:
